@@ -202,6 +202,29 @@ theorem singleton_alpha (nm : Ref → String) (c : Call) (hwf : WF c) (hg : Good
   · simp only [Sing.singleton]
     exact outPairs_fst c
 
+/-- the two naming loops of `to_singleton_onnx_model` never hit `ScopeError` -/
+theorem singleton_scope_no_clash (c : Call) (hwf : WF c) : scopeClash c.items [] = false :=
+  scopeClash_false c.items [] hwf.nodup (by intro e he; cases he)
+
+/-- **positional emission** (`Node.to_onnx`): under any scope the emitted input list is a prefix of
+    the positional list (slot k still holds argument k, omitted inner optionals stay as `""`), what
+    was dropped are only trailing `""`, and never below `min_input`. -/
+theorem emit_positional (nm : Ref → String) (c : Call) :
+    (emitNode nm c).inputs <+: c.flat.map (fun p => optName nm p.2) ∧
+    (∃ k, c.flat.map (fun p => optName nm p.2) = (emitNode nm c).inputs ++ List.replicate k "") ∧
+    (c.sig.minInput ≤ c.flat.length → c.sig.minInput ≤ (emitNode nm c).inputs.length) := by
+  simp only [emitNode, trim]
+  refine ⟨?_, ?_, ?_⟩
+  · have := trimRev_suffix c.sig.minInput (c.flat.map (fun p => optName nm p.2)).reverse
+    simpa using List.reverse_prefix.mpr this
+  · obtain ⟨k, hk⟩ := trimRev_dropped c.sig.minInput (c.flat.map (fun p => optName nm p.2)).reverse
+    refine ⟨k, ?_⟩
+    have := congrArg List.reverse hk
+    simpa using this
+  · intro h
+    have := trimRev_min c.sig.minInput (c.flat.map (fun p => optName nm p.2)).reverse (by simpa using h)
+    simpa using this
+
 /-- `untyped_input_no_check`: when some present input has no type the judgement is not consulted
     and every output Var stays untyped. -/
 theorem untyped_input_no_check (c : Call) (hk : kindsOk c.sig.inputs c.args = true)
@@ -380,7 +403,27 @@ theorem stripUnk_keeps (t : Ty) (h : tyInvented t = false) : stripUnk t = t := b
   | seq t ih => simp only [tyInvented] at h; simp [stripUnk, ih h]
   | opt t ih => simp only [tyInvented] at h; simp [stripUnk, ih h]
 
+/-- **supplemented_rejects_more**: an operator whose override runs the standard routine first
+    (Compress, Loop — checked on every run: the inference request is observed) rejects at least what
+    the standard constructor rejects, whatever its own rules are. (The ml operators do *not* have this
+    shape on the pinned tree: they replace the judgement — known findings.) -/
+theorem supplemented_rejects_more (Infer : InferFn)
+    (own : Call → List (String × Option Ty) → Except Err (List (String × Option Ty))) (c : Call)
+    (h : ∃ e, construct Infer c = .error e) : ∃ e, constructSupplemented Infer own c = .error e := by
+  obtain ⟨e, he⟩ := h
+  exact ⟨e, by simp [constructSupplemented, he]⟩
+
 /-! ### Non-vacuity -/
+
+/-- good namings exist for every call, so `singleton_alpha` / `eager_agrees` speak about every call -/
+theorem goodNames_exist (c : Call) : ∃ nm, GoodNames nm c := ⟨tallyNames, goodNames_tally c⟩
+
+/-- naming-free corollary: accept/reject of the constructor is accept/reject of the judgement on the
+    canonical hand-built model, for every well-formed, well-kinded, fully typed call -/
+theorem eager_agrees_canonical (Infer : InferFn) (hI : InferOK Infer) (c : Call) (hwf : WF c)
+    (hk : kindsOk c.sig.inputs c.args = true) (ht : anyUntyped c = false) :
+    ((∃ e, construct Infer c = .error e) ↔ Infer (handModel tallyNames c) = none) :=
+  (eager_agrees Infer hI tallyNames c hwf (goodNames_tally c) hk ht).1
 
 deriving instance DecidableEq for Except
 
